@@ -21,16 +21,21 @@
 //!                                NodeMetricManager::birth_update_template_registry
 //!   templ reg <name> CONTENT     TemplateRegistry::register::<T>()             (ok | err class)
 //!   templ dereg <name> | templ clear | templ has <name>
+//!   templ nbirth                 closes a birth block: the template definition metrics of the NBIRTH
+//!                                the node handed over after the callback, sorted by name:
+//!                                `<k> | <name> <datatype> T TMPL | ...` (`no-nbirth` if none went out)
 //! The four decoders: TemplateDefinition::try_from, TemplateInstance::try_from,
 //! TemplateValue::try_from, MetricValueKind::try_from_metric_value(DataType::Template, _).
 use crate::common::*;
 use prost::Message;
 use srad::types::Template as DeriveTemplate;
 use srad_eon::{BirthInitializer, EoNBuilder, MetricManager, NodeMetricManager, TemplateRegistry};
+use srad_client::channel::OutboundMessage;
 use srad_types::payload::{
-    metric, template::parameter, template::Parameter as PParam, DataType, Metric as PMetric,
+    metric, template::parameter, template::Parameter as PParam, DataType, Metric as PMetric, Payload,
     Template as PTemplate,
 };
+use srad_types::topic::NodeMessage as NodeMessageKind;
 use srad_types::{
     FromValueTypeError, MetricValue, MetricValueKind, Template, TemplateDefinition,
     TemplateInstance, TemplateMetadata, TemplateValue,
@@ -41,7 +46,7 @@ use std::panic::AssertUnwindSafe;
 use std::sync::{Arc, Mutex};
 use std::time::Duration;
 
-const RULE: &str = "a case counts as non-trivial when a template value with at least one nested template metric goes through the decoders, or when a registration is attempted whose definition nests a template or contains a malformed metric";
+const RULE: &str = "a case counts as non-trivial when a template value with at least one nested template metric goes through the decoders, or when a registration is attempted whose definition nests a template or contains a malformed metric, or when a registration is attempted under a name that is taken by a different definition";
 
 const TEMPLATE_DT: u32 = DataType::Template as u32;
 const RESERVED: [&str; 2] = ["bdSeq", "Node Control/Rebirth"];
@@ -606,13 +611,71 @@ impl TemplateMetadata for Reserved {
     }
 }
 
+// Three DIFFERENT templates that resolve to the same definition metric name "pump:1": two types
+// with the same name and version (an application's and a plugin's), and an unversioned one whose
+// name already contains the separator.
+#[derive(DeriveTemplate, Default, Clone)]
+struct PumpApp {
+    rpm: i32,
+}
+impl TemplateMetadata for PumpApp {
+    fn template_name() -> &'static str {
+        "pump"
+    }
+    fn template_version() -> Option<&'static str> {
+        Some("1")
+    }
+}
+#[derive(DeriveTemplate, Default, Clone)]
+struct PumpPlugin {
+    pressure: f64,
+    running: bool,
+}
+impl TemplateMetadata for PumpPlugin {
+    fn template_name() -> &'static str {
+        "pump"
+    }
+    fn template_version() -> Option<&'static str> {
+        Some("1")
+    }
+}
+#[derive(DeriveTemplate, Default, Clone)]
+struct PumpUnversioned {
+    flow: u16,
+    #[template(parameter)]
+    site: String,
+}
+impl TemplateMetadata for PumpUnversioned {
+    fn template_name() -> &'static str {
+        "pump:1"
+    }
+}
+/// nests the owner of the contested name
+#[derive(DeriveTemplate, Default, Clone)]
+struct Station {
+    pump: PumpApp,
+    id: u32,
+}
+impl TemplateMetadata for Station {
+    fn template_name() -> &'static str {
+        "station"
+    }
+}
+
 const REAL: usize = 4;
+/// indices of the colliding family (`real_info(PUMPS.start..PUMPS.end)`) and of its nesting user
+const PUMPS: std::ops::Range<usize> = 4..7;
+const STATION: usize = 7;
 fn real_info(i: usize) -> (String, TemplateDefinition) {
     match i {
         0 => (Inner::template_definition_metric_name(), Inner::template_definition()),
         1 => (Mid::template_definition_metric_name(), Mid::template_definition()),
         2 => (Outer::template_definition_metric_name(), Outer::template_definition()),
-        _ => (Reserved::template_definition_metric_name(), Reserved::template_definition()),
+        3 => (Reserved::template_definition_metric_name(), Reserved::template_definition()),
+        4 => (PumpApp::template_definition_metric_name(), PumpApp::template_definition()),
+        5 => (PumpPlugin::template_definition_metric_name(), PumpPlugin::template_definition()),
+        6 => (PumpUnversioned::template_definition_metric_name(), PumpUnversioned::template_definition()),
+        _ => (Station::template_definition_metric_name(), Station::template_definition()),
     }
 }
 fn real_instance(i: usize) -> TemplateInstance {
@@ -672,6 +735,8 @@ struct Shared {
     /// no `deregister` since the registry was last empty
     reg_only: bool,
     nontrivial: bool,
+    /// registrations that had to be refused, in the property's terms: (name, definition, why, op line)
+    refused: Vec<(String, TemplateDefinition, &'static str, String)>,
 }
 
 fn reg_class(dbg: &str) -> &'static str {
@@ -691,7 +756,11 @@ fn do_register(reg: &mut TemplateRegistry, name: &str, def: &TemplateDefinition,
             Some(0) => reg.register::<Inner>().map_err(|e| format!("{:?}", e)),
             Some(1) => reg.register::<Mid>().map_err(|e| format!("{:?}", e)),
             Some(2) => reg.register::<Outer>().map_err(|e| format!("{:?}", e)),
-            Some(_) => reg.register::<Reserved>().map_err(|e| format!("{:?}", e)),
+            Some(3) => reg.register::<Reserved>().map_err(|e| format!("{:?}", e)),
+            Some(4) => reg.register::<PumpApp>().map_err(|e| format!("{:?}", e)),
+            Some(5) => reg.register::<PumpPlugin>().map_err(|e| format!("{:?}", e)),
+            Some(6) => reg.register::<PumpUnversioned>().map_err(|e| format!("{:?}", e)),
+            Some(_) => reg.register::<Station>().map_err(|e| format!("{:?}", e)),
             None => reg.register::<Dyn>().map_err(|e| format!("{:?}", e)),
         };
         r
@@ -727,7 +796,7 @@ impl Shared {
                     let short = line[..line.len().min(300)].to_string();
                     let mut refs = vec![];
                     nested_refs(&def.metrics, &mut refs);
-                    if !refs.is_empty() || !well_formed(&def.metrics) {
+                    if !refs.is_empty() || !well_formed(&def.metrics) || self.accepted.get(name).map_or(false, |d| d != def) {
                         self.nontrivial = true;
                     }
                     // what is registered is what the history says (the harness's own record), not what the
@@ -737,6 +806,9 @@ impl Shared {
                         self.fails.push(("C18:register-effect".into(), "contains-disagrees-with-history".into(), format!("{}: contains({:?}) = {} but the history says {}", short, name, !before, before)));
                     }
                     let why = refusal(name, def, &|n| self.accepted.contains_key(n));
+                    if let Some(w) = why {
+                        self.refused.push((name.clone(), def.clone(), w, short.clone()));
+                    }
                     let res = do_register(reg, name, def, *real);
                     let after = reg.contains(name);
                     match &res {
@@ -818,6 +890,111 @@ impl Shared {
     }
 }
 
+/// The template definition metrics of an NBIRTH, sorted by name: every metric but the two node
+/// metrics each NBIRTH carries (`bdSeq`, `Node Control/Rebirth`; the harness's manager registers
+/// no metric of its own).
+fn nbirth_definitions(p: &Payload) -> Vec<PMetric> {
+    let mut v: Vec<PMetric> = p
+        .metrics
+        .iter()
+        .filter(|m| !(m.datatype != Some(TEMPLATE_DT) && m.name.as_deref().map_or(false, |n| RESERVED.contains(&n))))
+        .cloned()
+        .collect();
+    v.sort_by(|a, b| a.name.as_deref().unwrap_or("").as_bytes().cmp(b.name.as_deref().unwrap_or("").as_bytes()));
+    v
+}
+
+fn show_nbirth(defs: &[PMetric]) -> String {
+    let mut parts = vec![defs.len().to_string()];
+    for m in defs {
+        let dt = m.datatype.map(|d| d.to_string()).unwrap_or_else(|| "~".into());
+        let val = match &m.value {
+            Some(metric::Value::TemplateValue(t)) => format!("T {}", tmpl_tok(t)),
+            Some(v) => {
+                let mut only = PMetric::new();
+                only.value = Some(v.clone());
+                format!("O v{}", hex(&only.encode_to_vec()))
+            }
+            None => "O ~".to_string(),
+        };
+        parts.push(format!("{} {} {}", name_tok(m.name.as_deref().unwrap_or("")), dt, val));
+    }
+    parts.join(" | ")
+}
+
+impl Shared {
+    /// The registration sentence of C18 where it matters, at the node: what an NBIRTH announces
+    /// after the callback is exactly what the history registered — every registered name once,
+    /// with the definition it was registered WITH (compared token by token), marked as a
+    /// definition; a refused register (or a deregister of another name) changed nothing.
+    /// `self.accepted` is the harness's own record of the history.
+    fn oracle_nbirth(&mut self, defs: &[PMetric], block: &str) {
+        let registered = |s: &Shared| s.accepted.keys().cloned().collect::<Vec<_>>();
+        let mut seen: BTreeMap<String, usize> = BTreeMap::new();
+        for m in defs {
+            let name = m.name.clone().unwrap_or_default();
+            *seen.entry(name.clone()).or_insert(0) += 1;
+            let content = match &m.value {
+                Some(metric::Value::TemplateValue(t)) => Some(content_tok(&t.version, &t.metrics, &t.parameters)),
+                _ => None,
+            };
+            // was exactly this definition offered under this name and refused?
+            let refused_as = |s: &Shared| {
+                s.refused
+                    .iter()
+                    .rev()
+                    .find(|r| r.0 == name && Some(content_tok(&r.1.version, &r.1.metrics, &r.1.parameters)) == content)
+                    .map(|r| (r.2, r.3.clone()))
+            };
+            match self.accepted.get(&name) {
+                None => {
+                    let (feature, what) = match refused_as(self) {
+                        Some((w, line)) => (format!("refused-definition-announced:{}", w), format!("the definition of the refused registration `{}`", line)),
+                        None => ("unregistered-name-announced".to_string(), "a definition".to_string()),
+                    };
+                    self.fails.push((
+                        "C18:registered-with-node".into(),
+                        feature,
+                        format!("{}: the NBIRTH announces {} under the name {:?}, which is not registered (registered: {:?})", block, what, name, registered(self)),
+                    ));
+                }
+                Some(d) => {
+                    let marked = matches!(&m.value, Some(metric::Value::TemplateValue(t)) if t.is_definition == Some(true) && t.template_ref.is_none());
+                    if !marked || m.datatype != Some(TEMPLATE_DT) {
+                        self.fails.push((
+                            "C18:definition-marked".into(),
+                            "nbirth-markers".into(),
+                            format!("{}: the NBIRTH metric {:?} of a registered template is not a template-typed definition without template_ref: {}", block, name, &show_nbirth(std::slice::from_ref(m))[..]),
+                        ));
+                    }
+                    let want = content_tok(&d.version, &d.metrics, &d.parameters);
+                    if content.is_some() && content.as_deref() != Some(want.as_str()) {
+                        let (feature, what) = match refused_as(self) {
+                            Some((w, line)) => (format!("refused-definition-announced:{}", w), format!("the definition of the refused registration `{}`", line)),
+                            None => ("definition-changed".to_string(), format!("`{}`", &content.as_deref().unwrap()[..content.as_deref().unwrap().len().min(300)])),
+                        };
+                        self.fails.push((
+                            "C18:registered-with-node".into(),
+                            feature,
+                            format!("{}: the name {:?} is registered with the definition `{}` but the NBIRTH announces {} under it", block, name, &want[..want.len().min(300)], what),
+                        ));
+                    }
+                }
+            }
+        }
+        if let Some(n) = self.accepted.keys().find(|n| !seen.contains_key(*n)) {
+            self.fails.push((
+                "C18:registered-with-node".into(),
+                "registered-definition-not-announced".into(),
+                format!("{}: {:?} is registered but the NBIRTH carries no definition of that name (announced: {:?})", block, n, seen.keys().collect::<Vec<_>>()),
+            ));
+        }
+        if let Some((n, _)) = seen.iter().find(|(_, c)| **c > 1) {
+            self.fails.push(("C18:registered-with-node".into(), "announced-twice".into(), format!("{}: the NBIRTH carries {:?} more than once", block, n)));
+        }
+    }
+}
+
 struct Mgr(Arc<Mutex<Shared>>);
 
 impl MetricManager for Mgr {
@@ -854,7 +1031,11 @@ fn builder_register(b: EoNBuilder, name: &str, def: &TemplateDefinition, real: O
         Some(0) => b.register_template::<Inner>(),
         Some(1) => b.register_template::<Mid>(),
         Some(2) => b.register_template::<Outer>(),
-        Some(_) => b.register_template::<Reserved>(),
+        Some(3) => b.register_template::<Reserved>(),
+        Some(4) => b.register_template::<PumpApp>(),
+        Some(5) => b.register_template::<PumpPlugin>(),
+        Some(6) => b.register_template::<PumpUnversioned>(),
+        Some(_) => b.register_template::<Station>(),
         None => b.register_template::<Dyn>(),
     }))
 }
@@ -942,6 +1123,7 @@ fn run_case(ops: &[String], real: &[Option<usize>], out: &mut Out) -> Vec<String
             let mut j = k + 1;
             let mut script = vec![];
             let mut pre: Vec<(usize, String)> = vec![]; // stateless ops interleaved
+            let mut nbirth_at: Option<usize> = None;
             while j < ops.len() && ops[j] != "templ birth" {
                 let w: Vec<&str> = ops[j].split(' ').collect();
                 match w[1] {
@@ -953,6 +1135,10 @@ fn run_case(ops: &[String], real: &[Option<usize>], out: &mut Out) -> Vec<String
                     "clear" => script.push(ROp::Clear),
                     "has" => script.push(ROp::Has(String::from_utf8(unhex(w[2])).unwrap())),
                     "def" | "inst" | "dec" => pre.push((j, ops[j].clone())),
+                    "nbirth" => {
+                        assert!(j + 1 == ops.len() || ops[j + 1] == "templ birth", "`templ nbirth` must close its birth block");
+                        nbirth_at = Some(j);
+                    }
                     x => panic!("op {} inside a birth", x),
                 }
                 j += 1;
@@ -972,18 +1158,35 @@ fn run_case(ops: &[String], real: &[Option<usize>], out: &mut Out) -> Vec<String
             }
             // quiescence barrier: returns when every other task is idle
             tokio::time::sleep(Duration::from_nanos(1)).await;
-            while broker.rx_outbound.try_recv().is_ok() {}
+            // what the node handed over: the NBIRTH built from the registry the callback left behind
+            let mut nbirth: Option<Payload> = None;
+            while let Ok(m) = broker.rx_outbound.try_recv() {
+                if let OutboundMessage::NodeMessage { topic, payload } = m {
+                    if matches!(topic.message_type, NodeMessageKind::NBirth) {
+                        nbirth = Some(payload);
+                    }
+                }
+            }
+            let announced = nbirth.as_ref().map(nbirth_definitions);
             let mut s = shared.lock().unwrap();
+            if let (true, Some(defs)) = (s.ran, &announced) {
+                let block = format!("birth block at op {} ({} registry ops)", k + 1, n_script);
+                s.oracle_nbirth(defs, &block);
+            }
             answers2.push(if s.ran { "ok".into() } else { "no-birth".into() });
             let mut it = s.answers.drain(..).collect::<Vec<_>>().into_iter();
             for l in (k + 1)..j {
                 if let Some((_, o)) = pre.iter().find(|p| p.0 == l) {
                     answers2.push(format!("\u{1}{}", o)); // executed below, outside the lock
+                } else if nbirth_at == Some(l) {
+                    answers2.push(match &announced {
+                        Some(defs) => show_nbirth(defs),
+                        None => "no-nbirth".into(),
+                    });
                 } else {
                     answers2.push(it.next().unwrap_or_else(|| "no-birth".into()));
                 }
             }
-            let _ = n_script;
             k = j;
         }
         answers2
@@ -1377,6 +1580,7 @@ pub fn run(args: &Args, out: &mut Out) -> &'static str {
                 for m in &members {
                     ops.push(format!("templ has {}", name_tok(m.0)));
                 }
+                ops.push("templ nbirth".to_string());
                 case(out, &ops, &[], &format!("family:{}", fname));
                 if order.len() < members.len() {
                     out.count("family-orders:members-missing");
@@ -1409,6 +1613,8 @@ pub fn run(args: &Args, out: &mut Out) -> &'static str {
                 ops.push(format!("templ has {}", name_tok(&real_info(i).0)));
                 real.push(None);
             }
+            ops.push("templ nbirth".to_string());
+            real.push(None);
             case(out, &ops, &real, "family:derive-generated");
         }
     }
@@ -1459,6 +1665,7 @@ pub fn run(args: &Args, out: &mut Out) -> &'static str {
             // and the same definition under a taken / reserved name
             ops.push(reg_line("reg", "A", &d));
             ops.push(reg_line("reg", "bdSeq", &d));
+            ops.push("templ nbirth".to_string());
             case(out, &ops, &[], "definition-table");
             for &i in l {
                 out.count(&format!("metric-shape:{}", alphabet[i].0));
@@ -1467,12 +1674,112 @@ pub fn run(args: &Args, out: &mut Out) -> &'static str {
     }
     out.exhaustive.push(format!("registry state over {{A,B}} (4) x every metric list of length <= {} over 11 metric shapes (well-formed, 5 malformed kinds, registered/unregistered/deep references, type-confused), under a free, a taken and a reserved name", max_len));
 
+    // ---- R4: a taken name keeps its definition. Two DIFFERENT definitions under one name, the
+    //          second offered after the first; refused calls of every kind; what every NBIRTH
+    //          afterwards announces. Each history is run (a) in one callback, (b) one call per
+    //          birth, (c) with its first registration made through the builder; an empty rebirth
+    //          follows ("every NBIRTH").
+    {
+        let p = |n: &str| plain_metric(n, Some(DataType::Int32 as u32), Some(metric::Value::IntValue(0)));
+        let d1 = def_of(vec![p("rpm")]);
+        let d2 = TemplateDefinition {
+            version: None,
+            metrics: vec![
+                plain_metric("pressure", Some(DataType::Double as u32), Some(metric::Value::DoubleValue(0.0))),
+                plain_metric("running", Some(DataType::Boolean as u32), Some(metric::Value::BooleanValue(false))),
+            ],
+            parameters: vec![PParam { name: Some("site".into()), r#type: Some(DataType::String as u32), value: Some(parameter::Value::StringValue("x".into())) }],
+        };
+        // differs from d1 in the version only / in one parameter only
+        let d1v = TemplateDefinition { version: Some("1".into()), ..d1.clone() };
+        let d1p = TemplateDefinition { parameters: d2.parameters.clone(), ..d1.clone() };
+        let malformed = def_of(vec![p("rpm"), plain_metric("v", None, None)]);
+        let dangling = def_of(vec![inst_metric("z", "Z", vec![])]);
+        let user_of = |n: &str| def_of(vec![inst_metric("pump", n, vec![p("rpm")]), p("id")]);
+        let mut histories: Vec<(&str, Vec<(String, Option<usize>)>)> = vec![];
+        for n in ["N", "pump:1", "", "ünï"] {
+            let r = |d: &TemplateDefinition| (reg_line("reg", n, d), None);
+            let has = (format!("templ has {}", name_tok(n)), None);
+            histories.push(("taken", vec![r(&d1), r(&d2), has.clone()]));
+            histories.push(("taken-version-differs", vec![r(&d1), r(&d1v), has.clone()]));
+            histories.push(("taken-parameter-differs", vec![r(&d1), r(&d1p), r(&d1), has.clone()]));
+            histories.push(("taken-twice", vec![r(&d2), r(&d1), r(&d1v), r(&d2), has.clone()]));
+            histories.push(("taken-then-freed", vec![r(&d1), r(&d2), (format!("templ dereg {}", name_tok(n)), None), has.clone(), r(&d2), has.clone(), r(&d1)]));
+            histories.push(("taken-then-cleared", vec![r(&d1), r(&d2), ("templ clear".into(), None), r(&d2), r(&d1), has.clone()]));
+            histories.push(("taken-and-nested", vec![r(&d1), (reg_line("reg", "user", &user_of(n)), None), r(&d2), has.clone()]));
+            histories.push(("taken-by-malformed", vec![r(&d1), r(&malformed), r(&dangling), (reg_line("reg", "bdSeq", &d2), None), (reg_line("reg", "Node Control/Rebirth", &d1), None), has.clone()]));
+            histories.push(("refused-on-free-name", vec![r(&malformed), r(&dangling), has.clone(), r(&d2), r(&malformed)]));
+            histories.push(("same-definition-again", vec![r(&d1), r(&d1), r(&d1), has.clone()]));
+            histories.push(("deregister-other", vec![r(&d1), (reg_line("reg", "other", &d2), None), ("templ dereg 6e6f6e65".into(), None), r(&d2), ("templ dereg 6f74686572".into(), None), has.clone()]));
+        }
+        // through the real types: application, plugin and unversioned pump all want "pump:1"
+        for i in PUMPS {
+            for j in PUMPS {
+                if i == j {
+                    continue;
+                }
+                let ri = |k: usize| {
+                    let (n, d) = real_info(k);
+                    (reg_line("reg", &n, &d), Some(k))
+                };
+                let has = (format!("templ has {}", name_tok("pump:1")), None);
+                histories.push(("derive-generated-taken", vec![ri(i), ri(j), has.clone()]));
+                histories.push(("derive-generated-taken-and-nested", vec![ri(i), ri(STATION), ri(j), ri(i), has.clone()]));
+                let k = PUMPS.clone().find(|k| *k != i && *k != j).unwrap();
+                histories.push(("derive-generated-taken-twice", vec![ri(i), ri(j), ri(k), has.clone()]));
+            }
+        }
+        for (what, h) in &histories {
+            for shape in 0..3 {
+                let mut ops: Vec<String> = vec![];
+                let mut real: Vec<Option<usize>> = vec![];
+                let mut push = |o: &str, r: Option<usize>| {
+                    ops.push(o.to_string());
+                    real.push(r);
+                };
+                match shape {
+                    0 => {
+                        push("templ birth", None);
+                        for (o, r) in h {
+                            push(o, *r);
+                        }
+                        push("templ nbirth", None);
+                    }
+                    1 => {
+                        for (o, r) in h {
+                            push("templ birth", None);
+                            push(o, *r);
+                            push("templ nbirth", None);
+                        }
+                    }
+                    _ => {
+                        push(&h[0].0.replacen("templ reg ", "templ breg ", 1), h[0].1);
+                        push("templ birth", None);
+                        for (o, r) in &h[1..] {
+                            push(o, *r);
+                        }
+                        push("templ nbirth", None);
+                    }
+                }
+                // every NBIRTH: a rebirth in which the callback does nothing
+                push("templ birth", None);
+                push("templ nbirth", None);
+                case(out, &ops, &real, "name-collision");
+                out.count(&format!("name-collision:{}", what));
+                out.count(["name-collision-shape:one-callback", "name-collision-shape:one-call-per-birth", "name-collision-shape:first-through-builder"][shape]);
+            }
+        }
+        out.exhaustive.push("name collisions: 11 histories (second definition differing in everything / version only / one parameter only, refused for every reason, freed by deregister / clear, nested owner, same definition again) x 4 names, and every ordered pair / triple of three #[derive(Template)] types resolving to \"pump:1\" (same name+version; unversioned name containing the separator), each x {one callback, one call per birth, first registration through the builder} + an empty rebirth; every NBIRTH inspected".into());
+    }
+
     // ---- R3: random histories: builder phase, several births, register / deregister / clear
     for _ in 0..(if th { 3000 } else { 400 }) {
         let names = ["A", "B", "C", "D", "bdSeq", "Node Control/Rebirth", "", "ünï"];
         let mut ops = vec![];
         let odd = *rng.pick(&[0u64, 0, 5, 25]);
         let reg_only = rng.chance(1, 2);
+        // one registry call per birth: every call's effect on what the node announces is seen on its own
+        let per_op = rng.chance(1, 3);
         for _ in 0..rng.below(4) {
             let (_, metrics, params) = rand_content(&mut rng, &names[..5], odd);
             let d = TemplateDefinition { version: None, metrics, parameters: params };
@@ -1480,33 +1787,50 @@ pub fn run(args: &Args, out: &mut Out) -> &'static str {
             out.count("history-op:breg");
         }
         for _ in 0..rng.range(1, 3) {
-            ops.push("templ birth".to_string());
+            let mut block = vec![];
             for _ in 0..rng.below(7) {
                 match rng.below(10) {
                     0 if !reg_only => {
-                        ops.push(format!("templ dereg {}", name_tok(*rng.pick(&names))));
+                        block.push(format!("templ dereg {}", name_tok(*rng.pick(&names))));
                         out.count("history-op:dereg");
                     }
                     1 if !reg_only => {
-                        ops.push("templ clear".to_string());
+                        block.push("templ clear".to_string());
                         out.count("history-op:clear");
                     }
                     2 | 3 => {
-                        ops.push(format!("templ has {}", name_tok(*rng.pick(&names))));
+                        block.push(format!("templ has {}", name_tok(*rng.pick(&names))));
                         out.count("history-op:has");
                     }
                     _ => {
                         let (version, metrics, params) = rand_content(&mut rng, &names[..5], odd);
                         let d = TemplateDefinition { version, metrics, parameters: params };
-                        ops.push(reg_line("reg", *rng.pick(&names), &d));
+                        block.push(reg_line("reg", *rng.pick(&names), &d));
                         out.count("history-op:reg");
                     }
                 }
             }
+            if per_op && !block.is_empty() {
+                for o in block {
+                    ops.push("templ birth".to_string());
+                    ops.push(o);
+                    ops.push("templ nbirth".to_string());
+                    out.count("history-op:nbirth");
+                }
+            } else {
+                ops.push("templ birth".to_string());
+                ops.extend(block);
+                ops.push("templ nbirth".to_string());
+                out.count("history-op:nbirth");
+            }
         }
+        // the final questions go into the last birth block, which `templ nbirth` closes
+        ops.pop();
         for n in names {
             ops.push(format!("templ has {}", name_tok(n)));
         }
+        ops.push("templ nbirth".to_string());
+        out.count(if per_op { "random-history:one-call-per-birth" } else { "random-history:several-calls-per-birth" });
         case(out, &ops, &[], if reg_only { "random-history:registration-only" } else { "random-history:with-deregister-clear" });
     }
     RULE
